@@ -155,7 +155,11 @@ func (e *Engine) harnessCall(st *State, fn *ssa.Function, args []Value) (Value, 
 	case "verifInt", "verifInt64":
 		return e.fresh(e.tagOf(args[0]), BV(64)), true
 	case "verifTime":
-		return StructVal{Fields: []Value{e.fresh(e.tagOf(args[0]), BV(64))}}, true
+		// the model conflates time.Time{} with the Unix epoch (both are 0); a symbolic instant is never that one
+		// value, so that natively (where verifTime maps 0 to time.Time{}) orderings agree with the model
+		t := e.fresh(e.tagOf(args[0]), BV(64))
+		st.pc = append(st.pc, Not(Eq(t, ConstBV(0, 64))))
+		return StructVal{Fields: []Value{t}}, true
 	case "verifDuration":
 		return e.fresh(e.tagOf(args[0]), BV(64)), true
 	case "verifBool":
